@@ -136,6 +136,15 @@ Proof. exact create_idem_state. Qed.
 Theorem C14_idempotent_drop : forall dc db,
   drop_table_op dc true (fst (drop_table_op dc true db)) = (fst (drop_table_op dc true db), false).
 Proof. exact drop_idem. Qed.
+(* the same with any createJoinTables / createIndexes / dropJoinTables arguments, also different
+   ones in the two calls *)
+Theorem C14_idempotent_create_flags : forall dc cj ci cj' ci' db, case_clash_free db (table_of dc) = true ->
+  create_table_full dc true cj' ci' (fst (create_table_full dc true cj ci db))
+  = (fst (create_table_full dc true cj ci db), false).
+Proof. exact create_full_idem. Qed.
+Theorem C14_idempotent_drop_flags : forall dc dj dj' db,
+  drop_table_full dc true dj' (fst (drop_table_full dc true dj db)) = (fst (drop_table_full dc true dj db), false).
+Proof. exact drop_full_idem. Qed.
 
 (* ANY sequence of addColumn/delColumn(changeSchema=True) -- steps the engine refuses and steps the
    class refuses (a name that collides with `id`, a column, a method, an index; an unknown column)
@@ -288,6 +297,8 @@ Print Assumptions C14_style_roundtrip.
 Print Assumptions C14_idempotent_create.
 Print Assumptions C14_idempotent_create_state.
 Print Assumptions C14_idempotent_drop.
+Print Assumptions C14_idempotent_create_flags.
+Print Assumptions C14_idempotent_drop_flags.
 Print Assumptions C14_evolution_inv.
 Print Assumptions C14_evolution_refused.
 Print Assumptions C14_evolution_index_refuted.
